@@ -60,6 +60,7 @@ pub fn install_panic_hook() {
             "<non-string panic>".to_string()
         };
         PANIC_COUNT.fetch_add(1, SeqCst);
+        crate::panics::on_panic_snapshot();
         LAST_PANIC.with(|p| *p.borrow_mut() = msg.clone());
         if let Ok(mut l) = PANIC_LOG.lock() {
             if l.len() < 64 {
